@@ -347,6 +347,71 @@ fn exec_c<C: Suite>(scen: &Scenario) -> Exec {
             }
         }
     }
+    // state holding STRUCTURED secret scalars (1, q-1, q-2, the highest power of two below q, 2^64-1): stored, restored, and the
+    // restored key package / nonces sign exactly like the in-memory ones. (A refresh can legitimately leave a participant with
+    // any scalar as its share; random worlds only ever contain "typical" ones.)
+    if only.is_none() {
+        let kps = current_kps(&base);
+        if let Some((_, kp0)) = kps.iter().next() {
+            let two = sc_from_u64::<C>(2);
+            // 2^252 (32-byte scalars: inside [2^252, q) for the Curve25519 order, a high bit pattern for the 256-bit orders) / 2^445
+            let mut top = one::<C>();
+            for _ in 0..(if sc_len::<C>() > 40 { 445 } else { 252 }) {
+                top = top * two;
+            }
+            let values = [("1", one::<C>()), ("q-1", neg::<C>(one::<C>())), ("q-2", neg::<C>(two)), ("high power of two", top), ("2^64-1", sc_from_u64::<C>(u64::MAX))];
+            for (vname, sv) in values {
+                rep.evaluations += 1;
+                let share = match frost::keys::SigningShare::<C>::deserialize(&sc_bytes::<C>(&sv)) {
+                    Ok(s) => s,
+                    Err(e) => return Exec::Violation(Violation::new("C13", "C13.persisted_state_does_not_decode", format!("a signing share with the canonical scalar {vname} cannot be decoded: {e:?}")), rep),
+                };
+                let vshare = frost::keys::VerifyingShare::<C>::from(share);
+                let skp = frost::keys::KeyPackage::<C>::new(*kp0.identifier(), share, vshare, *kp0.verifying_key(), *kp0.min_signers());
+                let hn = frost::round1::Nonce::<C>::deserialize(&sc_bytes::<C>(&sv));
+                let bn = frost::round1::Nonce::<C>::deserialize(&sc_bytes::<C>(&(sv + sv + one::<C>()))); // never zero for the values above
+                let (Ok(hn), Ok(bn)) = (hn, bn) else {
+                    return Exec::Violation(Violation::new("C13", "C13.persisted_state_does_not_decode", format!("a nonce with the canonical scalar {vname} cannot be decoded")), rep);
+                };
+                let nn = SigningNonces::<C>::from_nonces(hn, bn);
+                // a package of t signers: this one plus t-1 others with fresh nonces
+                let t = scen.t as usize;
+                let mut cm = BTreeMap::new();
+                cm.insert(*skp.identifier(), *nn.commitments());
+                for (x, o) in kps.values().filter(|o| o.identifier() != skp.identifier()).take(t.saturating_sub(1)).enumerate() {
+                    let mut r2 = SimRng::good(stream(scen.seed, scen.run, &format!("c13/structured/co/{x}")));
+                    cm.insert(*o.identifier(), frost::round1::commit::<C, _>(o.signing_share(), &mut r2).1);
+                }
+                if cm.len() < (t as usize) {
+                    break;
+                }
+                let pkg = SigningPackage::<C>::new(cm, b"structured state");
+                let mem = frost::round2::sign::<C>(&pkg, &nn, &skp);
+                for fmt in [Fmt::Bin, Fmt::Json] {
+                    rep.evaluations += 1;
+                    let rkp: Result<frost::keys::KeyPackage<C>, String> = enc(fmt, &skp).and_then(|b| dec(fmt, &b));
+                    let rnn: Result<SigningNonces<C>, String> = enc(fmt, &nn).and_then(|b| dec(fmt, &b));
+                    match (rkp, rnn) {
+                        (Ok(rkp), Ok(rnn)) => {
+                            let again = frost::round2::sign::<C>(&pkg, &rnn, &rkp);
+                            let same = match (&mem, &again) {
+                                (Ok(a), Ok(b)) => a.serialize() == b.serialize(),
+                                (Err(_), Err(_)) => true,
+                                _ => false,
+                            };
+                            if !same || rkp != skp {
+                                return Exec::Violation(Violation::new("C13", "C13.resumed_output_differs", format!("state with secret scalars {vname} restored from {fmt:?}: sign gives {again:?} instead of {mem:?}")), rep);
+                            }
+                        }
+                        (a, b) => {
+                            return Exec::Violation(Violation::new("C13", "C13.persisted_state_does_not_decode", format!("state with secret scalars {vname} ({fmt:?}) cannot be restored: key package {:?}, nonces {:?}", a.err(), b.err())), rep);
+                        }
+                    }
+                }
+                rep.probe("structured_state_roundtrip");
+            }
+        }
+    }
     rep.probe_n("crash_points", done_points);
     rep.nontrivial = done_points > 0;
     rep.sample = Some(json!({"suite": scen.suite, "n": scen.n, "t": scen.t, "wire": format!("{:?}", scen.wire), "phases": scen.phases, "crash_points": points.len(), "example_point": points.first().map(|f| label_of(f))}));
